@@ -71,7 +71,8 @@ SPEC = {
                  "C18_flags_hasBits", "C18_flags_or", "C18_flags_decode", "C18_lock_order",
                  "C18_shutdown_flag_table", "C18_flag_table_cancel_empties_heap", "C18_flag_table_refuses_add",
                  "C18_cancel_flag_held_element", "C18_cancel_flag_held_both_enabled",
-                 "C18_cancel_flag_held_dropped_witness", "C18_cancel_flag_held_delivered_witness"],
+                 "C18_cancel_flag_held_dropped_witness", "C18_cancel_flag_held_delivered_witness",
+                 "C18_dropped_never_delivered", "C18_dropped_cancel_false"],
     "trusted_base": [
         "hand-written protocol model Hive/Model/Timed.lean of runtime/timed (queue.go, executor.go, taskexecutor.go over container/heap "
         "and generalheap); ties: (1) differential execution of the model's own transition function under a deterministic scheduler "
@@ -94,8 +95,9 @@ SPEC = {
         "a bare Queue is the same heap and the same Poll: consumers looping over Poll are the model's workers without callbacks; "
         "Poll(false) differs from Poll(true) only on the empty queue (returns the zero value at once) - it too waits for the "
         "time of the element it popped; direct Queue sessions are tied by the qseq lines (model's add/cancelElem/Heap.pop) and "
-        "by okLog on qsess traces. NOT modelled: Executor.Shutdown "
-        "called from inside a callback; callbacks that never return; time.Time wall-clock jumps",
+        "by okLog on qsess traces. NOT modelled (but driven on the real code by the cbshutdown part with its own oracle "
+        "and okLog): Executor.Shutdown called from inside a callback; not modelled at all: callbacks that never return; "
+        "time.Time wall-clock jumps",
         "liveness is stated as absence of stuck configurations (some executor goroutine can step or waits only for the clock / "
         "the harness), not as a fairness-based eventuality"],
     "manifest": {
@@ -115,16 +117,26 @@ SPEC = {
                 "(C18_shutdown_returns_when_done); the size bound holds and Add drops only from a full queue, a replacement never "
                 "drops (C18_size_bound, C18_add_drops_only_when_full, C18_replace_never_drops); the lock order computed from the "
                 "regenerated skeletons is acyclic (C18_lock_order); the statements of all anchored functions, the method sets and "
-                "the ShutdownFlag constants are regenerated and pinned (C18_facts_*). Tie: the real TaskExecutor is driven from one goroutine at instants tens "
+                "the ShutdownFlag constants are regenerated and pinned (C18_facts_*); the complete shutdown-flag table - what each flag "
+                "set does to the elements in the heap and to the element a poller holds, panic / dontWait changing no row "
+                "(C18_shutdown_flag_table, C18_flag_table_*), the one nondeterministic row (with CancelPendingElements a held "
+                "element whose time has come is dropped-and-marked or delivered, both enabled, both reachable: "
+                "C18_cancel_flag_held_*), and in every reachable configuration whatever the queue dropped (size bound, shutdown "
+                "flag) is marked as cancelled, has neither been delivered nor run and makes Cancel(id) answer false "
+                "(C18_dropped_never_delivered, C18_dropped_cancel_false). Tie: the real TaskExecutor is driven from one goroutine at instants tens "
                 "of ms apart (operations at even, due times at odd clock values; timing validity judged by a canary goroutine and "
-                "the harness's own lateness, invalid cases re-run with a larger unit) and must give line by line the answers of "
+                "the harness's own lateness; a disturbed attempt is given up at once and repeated, first with the same, then with "
+                "larger units, then in a second pass; the child process of these cases runs in the round-robin real-time class "
+                "where permitted; due times are also handed over as differently represented equal instants - wall-clock only, "
+                "UTC, other zones) and must give line by line the answers of "
                 "the compiled Lean model run under a deterministic scheduler (return values, Size(), which task ran in which "
                 "clock unit, when Shutdown returned); forced schedules through two verif hooks (Poll before select, Add before "
                 "insertion); stress traces judged by okLog; independent Go oracle (early, double, ran after Cancel true, wrong "
                 "Cancel result, replaced task ran, missing delivery, Shutdown hang, an element dropped although the size bound was not exceeded - read off the "
                 "elements' cancel channels); regenerated synchronisation skeletons, statements, method sets, constants, lock order.",
         "note": "Trusted: Lean kernel; the hand-written model and Go's sync/timer semantics as modelled; real-time tie with generous "
-                "margins (cases whose own timing was disturbed are re-run, persistently disturbed ones dropped and counted). Nine "
+                "margins (cases whose own timing was disturbed are re-run, persistently disturbed ones dropped and counted; only "
+                "lateness while the machine was demonstrably on time counts against the code). Nine "
                 "defects of the unchanged tree were exhibited and repaired by fix: commits; no known finding remains.",
         "technique": "Lean 4 inductive invariants over an interleaving protocol model (counting invariants per element serial, "
                      "registry invariants, condition-variable accounting) + differential execution of the model's transition "
